@@ -66,17 +66,105 @@ Record Alg := {
   meqb_sound : forall a b, meqb a b = true -> a = b
 }.
 
+(* Times and argument dictionaries.  [tT] is the type of evaluation times;
+   what the sampled coefficients need of it is a comparison, the scalar
+   t - t' and the elementwise closeness test of add_inter; [tsep] names a set
+   of times on which that test is plain equality (law [tclose_sep]; for doubles
+   two distinct numbers can pass rtol=1e-15 only if they are within 4 ulp).
+   [tArgs] is the type of `args` dictionaries, [amerge a n] is {**a, **n}. *)
+Record TimeS (A : Alg) := {
+  tT :> Type;
+  tleb : tT -> tT -> bool;
+  tclose : tT -> tT -> bool;
+  tdiff : tT -> tT -> C A;
+  tsep : tT -> Prop;
+  tclose_sep : forall a b, tsep a -> tsep b -> tclose a b = true -> a = b;
+  tArgs : Type;
+  amerge : tArgs -> tArgs -> tArgs;
+  amerge_assoc : forall a m n, amerge (amerge a m) n = amerge a (amerge m n)
+}.
+
 Section Model.
 Variable A : Alg.
-Variable T : Type.            (* evaluation times *)
+Variable T : TimeS A.          (* evaluation times and argument dictionaries *)
 
 Notation Cc := (C A).
 Notation Mm := (M A).
+Notation Args := (tArgs A T).
+
+(* ---------------------------------------------------------------------- *)
+(* coefficient.pyx: InterCoefficient.  np_arrays = (tlist, poly); poly has
+   order+1 rows (row 0 = highest power) and one column per grid point. *)
+Record inter := { igrid : list T; ipoly : list (list Cc) }.
+
+Definition nth_c (l : list Cc) (k : nat) : Cc := nth k l (c0 A).
+
+(* the interval index: the biggest k with tlist[k] <= t.  (_call guesses it
+   from dt, verifies the guess and otherwise runs _binary_search; either way
+   the result is this index for an increasing grid.) *)
+Fixpoint find_idx (g : list T) (t : T) (k : nat) : nat :=
+  match g with
+  | [] => k
+  | _ :: r =>
+      match r with
+      | [] => k
+      | b :: _ => if tleb A T b t then find_idx r t (S k) else k
+      end
+  end.
+
+(* the polynomial of interval k at offset f *)
+Definition rows_eval (rows : list (list Cc)) (f : Cc) (k : nat) : Cc :=
+  match rows with
+  | [row] => nth_c row k                                          (* order == 0: poly[0, idx] *)
+  | _ =>                                                          (* out *= factor; out += slice[i] *)
+      fold_left (fun out row => cadd A (cmul A out f) (nth_c row k)) rows (c0 A)
+  end.
+
+(* InterCoefficient._call *)
+Definition ieval (i : inter) (t : T) : Cc :=
+  match igrid i with
+  | [] => c0 A
+  | t0 :: _ =>
+      let lastrow := last (ipoly i) [] in
+      if tleb A T t t0 then nth_c lastrow 0                       (* t <= tlist[0]: poly[-1, 0] *)
+      else if tleb A T (last (igrid i) t0) t
+           then nth_c lastrow (length (igrid i) - 1)              (* t >= tlist[-1]: poly[-1, -1] *)
+      else
+        let k := find_idx (igrid i) t 0 in
+        rows_eval (ipoly i) (tdiff A T t (nth k (igrid i) t0)) k
+  end.
+
+(* np.allclose(left.tlist, right.tlist, ..) together with the shape test *)
+Fixpoint all2 (p : T -> T -> bool) (a b : list T) : bool :=
+  match a, b with
+  | [], [] => true
+  | x :: a', y :: b' => p x y && all2 p a' b'
+  | _, _ => false
+  end.
+
+Fixpoint map2 {X} (f : X -> X -> X) (a b : list X) : list X :=
+  match a, b with
+  | x :: a', y :: b' => f x y :: map2 f a' b'
+  | _, _ => []
+  end.
+
+(* add_inter's test, with the closeness test as a parameter so that the
+   guard before commit f4e3df4 can be stated too *)
+Definition fuse_guard_with (cl : T -> T -> bool) (l r : inter) : bool :=
+  all2 cl (igrid l) (igrid r) && Nat.eqb (length (ipoly l)) (length (ipoly r)).
+
+(* InterCoefficient.restore(left.tlist, left.poly + right.poly, left.dt) *)
+Definition fuse (l r : inter) : inter :=
+  {| igrid := igrid l; ipoly := map2 (map2 (cadd A)) (ipoly l) (ipoly r) |}.
+
+Definition inter_ok (i : inter) : Prop :=
+  Forall (fun row => length row = length (igrid i)) (ipoly i) /\ Forall (tsep A T) (igrid i).
 
 (* ---------------------------------------------------------------------- *)
 (* coefficient.pyx: the Coefficient classes that QobjEvo algebra creates.  *)
 Inductive coef :=
-| CFun (f : T -> Cc)          (* FunctionCoefficient (any function of t) *)
+| CFun (f : Args -> T -> Cc) (a : Args)   (* FunctionCoefficient(func, args) *)
+| CInter (i : inter)          (* InterCoefficient *)
 | CConst (z : Cc)             (* ConstantCoefficient._call = value *)
 | CSum (a b : coef)           (* SumCoefficient._call = first + second *)
 | CMul (a b : coef)           (* MulCoefficient._call = first * second *)
@@ -85,12 +173,39 @@ Inductive coef :=
 
 Fixpoint ceval (c : coef) (t : T) : Cc :=
   match c with
-  | CFun f => f t
+  | CFun f a => f a t
+  | CInter i => ieval i t
   | CConst z => z
   | CSum a b => cadd A (ceval a t) (ceval b t)
   | CMul a b => cmul A (ceval a t) (ceval b t)
   | CConj a => cconj A (ceval a t)
   | CNorm a => cmul A (ceval a t) (cconj A (ceval a t))
+  end.
+
+(* Coefficient.__add__: two InterCoefficient go through add_inter, anything
+   else becomes a SumCoefficient *)
+Definition coef_add_with (cl : T -> T -> bool) (a b : coef) : coef :=
+  match a, b with
+  | CInter l, CInter r => if fuse_guard_with cl l r then CInter (fuse l r) else CSum a b
+  | _, _ => CSum a b
+  end.
+Definition coef_add := coef_add_with (tclose A T).
+
+(* every sampled leaf is rectangular and lives on separated times *)
+Fixpoint coef_ok (c : coef) : Prop :=
+  match c with
+  | CFun _ _ | CConst _ => True
+  | CInter i => inter_ok i
+  | CSum a b | CMul a b => coef_ok a /\ coef_ok b
+  | CConj a | CNorm a => coef_ok a
+  end.
+
+(* class of a coefficient object, to compare with type(c).__name__ *)
+Inductive ckind := CKFun | CKInter | CKConst | CKSum | CKMul | CKConj | CKNorm.
+Definition ckind_of (c : coef) : ckind :=
+  match c with
+  | CFun _ _ => CKFun | CInter _ => CKInter | CConst _ => CKConst | CSum _ _ => CKSum
+  | CMul _ _ => CKMul | CConj _ => CKConj | CNorm _ => CKNorm
   end.
 
 (* ---------------------------------------------------------------------- *)
@@ -136,8 +251,9 @@ Definition xor_anti (trs : list tr) : bool :=
 Inductive elem :=
 | Const (q : Mm)                               (* _ConstantElement(qobj) *)
 | Evo (q : Mm) (c : coef)                      (* _EvoElement(qobj, coefficient) *)
-| Func (f : T -> Mm)                           (* _FuncElement(func, args) *)
-| Map (f : T -> Mm) (trs : list tr) (z : Cc)   (* _MapElement(base, transform, coeff) *)
+| Func (f : Args -> T -> Mm) (a : Args)        (* _FuncElement(func, args) *)
+| Map (f : Args -> T -> Mm) (a : Args) (trs : list tr) (z : Cc)
+                                               (* _MapElement(_FuncElement(func, args), transform, coeff) *)
 | Prod (l r : elem) (trs : list tr) (cj : bool). (* _ProdElement(left, right, transform, conj) *)
 
 Definition cj_of (b : bool) (z : Cc) : Cc := if b then cconj A z else z.
@@ -147,8 +263,8 @@ Fixpoint coeff (e : elem) (t : T) : Cc :=
   match e with
   | Const _ => c1 A
   | Evo _ c => ceval c t
-  | Func _ => c1 A
-  | Map _ _ z => z
+  | Func _ _ => c1 A
+  | Map _ _ _ z => z
   | Prod l r _ cj => cj_of cj (cmul A (coeff l t) (coeff r t))
   end.
 
@@ -157,8 +273,8 @@ Fixpoint qobj (e : elem) (t : T) : Mm :=
   match e with
   | Const q => q
   | Evo q _ => q
-  | Func f => f t
-  | Map f trs _ => apply_trs trs (f t)
+  | Func f a => f a t
+  | Map f a trs _ => apply_trs trs (f a t)
   | Prod l r trs _ => apply_trs trs (mmul A (qobj l t) (qobj r t))
   end.
 
@@ -170,8 +286,8 @@ Fixpoint scale (z : Cc) (e : elem) : elem :=
   match e with
   | Const q => Const (mscale A z q)            (* _ConstantElement(qobj * right) *)
   | Evo q c => Evo (mscale A z q) c            (* _EvoElement(base._qobj * factor, coefficient) *)
-  | Func f => Map f [] z                       (* _MapElement(left, [], right) *)
-  | Map f trs w => Map f trs (cmul A w z)      (* _MapElement(base, transform.copy(), _coeff*factor) *)
+  | Func f a => Map f a [] z                   (* _MapElement(left, [], right) *)
+  | Map f a trs w => Map f a trs (cmul A w z)  (* _MapElement(base, transform.copy(), _coeff*factor) *)
   | Prod l r trs cj => Prod l (scale (cj_of cj z) r) trs cj
       (* if self._conj: factor = conj(factor)
          _ProdElement(self._left, self._right * factor, transform.copy(), self._conj) *)
@@ -183,8 +299,8 @@ Fixpoint old_scale (z : Cc) (e : elem) : elem :=
   match e with
   | Const q => Const (mscale A z q)
   | Evo q c => Evo (mscale A z q) c
-  | Func f => Map f [] z
-  | Map f trs w => Map f trs (cmul A w z)
+  | Func f a => Map f a [] z
+  | Map f a trs w => Map f a trs (cmul A w z)
   | Prod l r trs cj => Prod l (old_scale z r) trs cj
   end.
 
@@ -208,9 +324,44 @@ Definition linear_map (f : tr) (anti : bool) (e : elem) : elem :=
   match e with
   | Const q => Const (tr_sem f q)
   | Evo q c => Evo (tr_sem f q) (if anti then CConj c else c)
-  | Func g => Map g [f] (c1 A)                 (* _MapElement(self, [f]) : coeff defaults to 1. *)
-  | Map g trs z => Map g (trs ++ [f]) (cj_of anti z)
+  | Func g a => Map g a [f] (c1 A)             (* _MapElement(self, [f]) : coeff defaults to 1. *)
+  | Map g a trs z => Map g a (trs ++ [f]) (cj_of anti z)
   | Prod l r trs cj => Prod l r (trs ++ [f]) (xorb cj anti)
+  end.
+
+(* Coefficient.replace_arguments(args): FunctionCoefficient gets
+   {**self.args, **args}; Sum/Mul/Conj/Norm recurse; Constant and Inter return self *)
+Fixpoint creplace (n : Args) (c : coef) : coef :=
+  match c with
+  | CFun f a => CFun f (amerge A T a n)
+  | CInter _ | CConst _ => c
+  | CSum a b => CSum (creplace n a) (creplace n b)
+  | CMul a b => CMul (creplace n a) (creplace n b)
+  | CConj a => CConj (creplace n a)
+  | CNorm a => CNorm (creplace n a)
+  end.
+
+(* .replace_arguments(args, cache) of the five element classes (the cache only
+   shares equal results; a function of unused arguments is unchanged by them) *)
+Fixpoint ereplace (n : Args) (e : elem) : elem :=
+  match e with
+  | Const q => Const q                                   (* return self *)
+  | Evo q c => Evo q (creplace n c)                      (* _EvoElement(qobj, coefficient.replace_arguments(args)) *)
+  | Func f a => Func f (amerge A T a n)                  (* _FuncElement(func, {**self._args, **args}) *)
+  | Map f a trs z => Map f (amerge A T a n) trs z        (* _MapElement(base.replace_arguments(..), transform.copy(), coeff) *)
+  | Prod l r trs cj => Prod (ereplace n l) (ereplace n r) trs cj
+  end.
+
+(* the same objects evaluated under an overriding argument dictionary *)
+Fixpoint ceval_ov (n : Args) (c : coef) (t : T) : Cc :=
+  match c with
+  | CFun f a => f (amerge A T a n) t
+  | CInter i => ieval i t
+  | CConst z => z
+  | CSum a b => cadd A (ceval_ov n a t) (ceval_ov n b t)
+  | CMul a b => cmul A (ceval_ov n a t) (ceval_ov n b t)
+  | CConj a => cconj A (ceval_ov n a t)
+  | CNorm a => cmul A (ceval_ov n a t) (cconj A (ceval_ov n a t))
   end.
 
 (* matmul_data_t(t, state, out): [out = None] is the Python None (the result
@@ -309,7 +460,7 @@ Fixpoint merge_ins (q : Mm) (c : coef) (acc : list (Mm * coef)) : list (Mm * coe
   match acc with
   | [] => [(q, c)]
   | (q', c') :: r =>
-      if meqb A q q' then (q', CSum c' c) :: r else (q', c') :: merge_ins q c r
+      if meqb A q q' then (q', coef_add c' c) :: r else (q', c') :: merge_ins q c r
   end.
 
 Definition merge_evo (es : qevo) : qevo :=
@@ -348,10 +499,19 @@ Definition tr_ok (x : tr) : Prop :=
 
 Fixpoint wf (e : elem) : Prop :=
   match e with
-  | Const _ | Evo _ _ | Func _ => True
-  | Map _ trs _ => Forall tr_ok trs
+  | Const _ | Func _ _ => True
+  | Evo _ c => coef_ok c
+  | Map _ _ trs _ => Forall tr_ok trs
   | Prod l r trs cj => wf l /\ wf r /\ Forall tr_ok trs /\ cj = xor_anti trs
   end.
+
+(* QobjEvo.arguments(n): every element gets replace_arguments(n) *)
+Definition qe_arguments (n : Args) (es : qevo) : qevo := map (ereplace n) es.
+(* the same under an optional dictionary (None: nothing replaced) *)
+Definition crep (ov : option Args) (c : coef) : coef :=
+  match ov with None => c | Some m => creplace m c end.
+Definition rep (ov : option Args) (es : qevo) : qevo :=
+  match ov with None => es | Some m => map (ereplace m) es end.
 
 (* ---------------------------------------------------------------------- *)
 (* Expression trees over the public constructions, the object they build
@@ -362,7 +522,7 @@ Fixpoint wf (e : elem) : Prop :=
 Inductive qx :=
 | XConst (q : Mm)                         (* QobjEvo(q) *)
 | XPair (q : Mm) (c : coef)               (* QobjEvo([q, c]) *)
-| XFunc (f : T -> Mm)                     (* QobjEvo(f) *)
+| XFunc (f : Args -> T -> Mm) (a : Args)  (* QobjEvo(f, args=a) *)
 | XList (items : list (Mm * option coef)) (* QobjEvo([q0, [q1, c1], ..]) *)
 | XAdd (a b : qx)                         (* a + b *)
 | XSub (a b : qx)                         (* a - b *)
@@ -377,7 +537,9 @@ Inductive qx :=
 | XTrans (a : qx) | XConj (a : qx) | XDag (a : qx)
 | XLinMap (f : tr) (a : qx)               (* a.linear_map(f), a.to(..) *)
 | XCompress (a : qx)                      (* a.compress() *)
-| XCtor (a : qx).                         (* QobjEvo(a): copy and compress *)
+| XCtor (a : qx)                          (* QobjEvo(a): copy and compress *)
+| XArgs (a : qx) (n : Args)               (* QobjEvo(a, args=n), a(t, **n): copy + arguments(n) + compress *)
+| XArguments (a : qx) (n : Args).         (* b = a.copy(); b.arguments(n) *)
 
 Definition read_item (p : Mm * option coef) : elem :=
   match snd p with None => Const (fst p) | Some c => Evo (fst p) c end.
@@ -388,7 +550,7 @@ Fixpoint build_with (x : qx) : qevo :=
   match x with
   | XConst q => compress [Const q]
   | XPair q c => compress [Evo q c]
-  | XFunc f => compress [Func f]
+  | XFunc f a => compress [Func f a]
   | XList items => compress (map read_item items)
   | XAdd a b => qe_iadd (build_with a) (build_with b)
   | XSub a b => qe_iadd (build_with a) (map (sc (copp A (c1 A))) (build_with b))
@@ -406,6 +568,8 @@ Fixpoint build_with (x : qx) : qevo :=
   | XLinMap f a => qe_linear_map f false (build_with a)
   | XCompress a => compress (build_with a)
   | XCtor a => compress (build_with a)
+  | XArgs a n => compress (map (ereplace n) (build_with a))
+  | XArguments a n => map (ereplace n) (build_with a)
   end.
 End Build.
 
@@ -414,50 +578,68 @@ Definition old_build := build_with old_scale.      (* before commit 7dc9384 *)
 
 Definition esum (l : list Mm) : Mm := fold_right (madd A) (m0 A) l.
 
-Definition item_value (t : T) (p : Mm * option coef) : Mm :=
-  match snd p with None => fst p | Some c => mscale A (ceval c t) (fst p) end.
+(* evaluation under an optional overriding argument dictionary: what
+   replace_arguments must amount to *)
+Definition aov (ov : option Args) (a : Args) : Args :=
+  match ov with None => a | Some n => amerge A T a n end.
+Definition cev (ov : option Args) (c : coef) (t : T) : Cc :=
+  match ov with None => ceval c t | Some n => ceval_ov n c t end.
 
-Fixpoint sem (x : qx) (t : T) : Mm :=
+Definition item_value (ov : option Args) (t : T) (p : Mm * option coef) : Mm :=
+  match snd p with None => fst p | Some c => mscale A (cev ov c t) (fst p) end.
+
+Fixpoint semo (ov : option Args) (x : qx) (t : T) : Mm :=
   match x with
   | XConst q => q
-  | XPair q c => mscale A (ceval c t) q
-  | XFunc f => f t
-  | XList items => esum (map (item_value t) items)
-  | XAdd a b => madd A (sem a t) (sem b t)
-  | XSub a b => madd A (sem a t) (mscale A (copp A (c1 A)) (sem b t))
-  | XAddQ a q => madd A (sem a t) q
-  | XAddNum a z => madd A (sem a t) (mscale A z (mI A))
-  | XMulNum a z => mscale A z (sem a t)
-  | XMulCoef a c => mscale A (ceval c t) (sem a t)
-  | XMatmul a b => mmul A (sem a t) (sem b t)
-  | XMatmulQ a q => mmul A (sem a t) q
-  | XRmatmulQ q a => mmul A q (sem a t)
-  | XNeg a => mscale A (copp A (c1 A)) (sem a t)
-  | XTrans a => mtrans A (sem a t)
-  | XConj a => mconj A (sem a t)
-  | XDag a => mdag A (sem a t)
-  | XLinMap f a => tr_sem f (sem a t)
-  | XCompress a => sem a t
-  | XCtor a => sem a t
+  | XPair q c => mscale A (cev ov c t) q
+  | XFunc f a => f (aov ov a) t
+  | XList items => esum (map (item_value ov t) items)
+  | XAdd a b => madd A (semo ov a t) (semo ov b t)
+  | XSub a b => madd A (semo ov a t) (mscale A (copp A (c1 A)) (semo ov b t))
+  | XAddQ a q => madd A (semo ov a t) q
+  | XAddNum a z => madd A (semo ov a t) (mscale A z (mI A))
+  | XMulNum a z => mscale A z (semo ov a t)
+  | XMulCoef a c => mscale A (cev ov c t) (semo ov a t)
+  | XMatmul a b => mmul A (semo ov a t) (semo ov b t)
+  | XMatmulQ a q => mmul A (semo ov a t) q
+  | XRmatmulQ q a => mmul A q (semo ov a t)
+  | XNeg a => mscale A (copp A (c1 A)) (semo ov a t)
+  | XTrans a => mtrans A (semo ov a t)
+  | XConj a => mconj A (semo ov a t)
+  | XDag a => mdag A (semo ov a t)
+  | XLinMap f a => tr_sem f (semo ov a t)
+  | XCompress a => semo ov a t
+  | XCtor a => semo ov a t
+  | XArgs a n =>                     (* the inner replacement happens first: {**{**args, **n}, **m} *)
+      semo (Some (match ov with None => n | Some m => amerge A T n m end)) a t
+  | XArguments a n =>
+      semo (Some (match ov with None => n | Some m => amerge A T n m end)) a t
   end.
 
-(* side condition of the tree language: a map handed to linear_map is
-   linear (the documented contract of QobjEvo.linear_map) *)
+(* the same combination applied to the constituents' values at t *)
+Definition sem (x : qx) (t : T) : Mm := semo None x t.
+
+(* side conditions of the tree language: a map handed to linear_map is linear
+   (the documented contract of QobjEvo.linear_map); sampled coefficients are
+   rectangular and live on separated times *)
 Fixpoint wfx (x : qx) : Prop :=
   match x with
-  | XConst _ | XPair _ _ | XFunc _ | XList _ => True
+  | XConst _ | XFunc _ _ => True
+  | XPair _ c => coef_ok c
+  | XList items => Forall (fun p => match snd p with None => True | Some c => coef_ok c end) items
   | XAdd a b | XSub a b | XMatmul a b => wfx a /\ wfx b
   | XLinMap f a => tr_ok f /\ tr_anti f = false /\ wfx a
-  | XAddQ a _ | XAddNum a _ | XMulNum a _ | XMulCoef a _ | XMatmulQ a _
+  | XMulCoef a c => coef_ok c /\ wfx a
+  | XAddQ a _ | XAddNum a _ | XMulNum a _ | XMatmulQ a _ | XArgs a _ | XArguments a _
   | XRmatmulQ _ a | XNeg a | XTrans a | XConj a | XDag a | XCompress a | XCtor a => wfx a
   end.
 
 (* element class names, to compare with type(e).__name__ *)
-Inductive kind := KConst | KEvo | KFunc | KMap (n : nat) | KProd (l r : kind) (n : nat) (cj : bool).
+Inductive kind := KConst | KEvo (c : ckind) | KFunc | KMap (n : nat) | KProd (l r : kind) (n : nat) (cj : bool).
 Fixpoint kind_of (e : elem) : kind :=
   match e with
-  | Const _ => KConst | Evo _ _ => KEvo | Func _ => KFunc
-  | Map _ trs _ => KMap (length trs)
+  | Const _ => KConst | Evo _ c => KEvo (ckind_of c) | Func _ _ => KFunc
+  | Map _ _ trs _ => KMap (length trs)
   | Prod l r trs cj => KProd (kind_of l) (kind_of r) (length trs) cj
   end.
 
@@ -471,7 +653,7 @@ Definition func_qobj (teqb : T -> T -> bool) (f : T -> Mm)
 
 End Model.
 
-Arguments CFun {A T}. Arguments CConst {A T}. Arguments CSum {A T}.
+Arguments CFun {A T}. Arguments CInter {A T}. Arguments CConst {A T}. Arguments CSum {A T}.
 Arguments CMul {A T}. Arguments CConj {A T}. Arguments CNorm {A T}.
 Arguments TTrans {A}. Arguments TConj {A}. Arguments TDag {A}. Arguments TTo {A}.
 Arguments TLmul {A}. Arguments TRmul {A}. Arguments TUser {A}.
@@ -482,7 +664,8 @@ Arguments XAdd {A T}. Arguments XSub {A T}. Arguments XAddQ {A T}. Arguments XAd
 Arguments XMulNum {A T}. Arguments XMulCoef {A T}. Arguments XMatmul {A T}.
 Arguments XMatmulQ {A T}. Arguments XRmatmulQ {A T}. Arguments XNeg {A T}.
 Arguments XTrans {A T}. Arguments XConj {A T}. Arguments XDag {A T}. Arguments XLinMap {A T}.
-Arguments XCompress {A T}. Arguments XCtor {A T}.
+Arguments XCompress {A T}. Arguments XCtor {A T}. Arguments XArgs {A T}. Arguments XArguments {A T}.
+Arguments Build_inter {A T}. Arguments igrid {A T}. Arguments ipoly {A T}.
 
 (* ---------------------------------------------------------------------- *)
 (* Execution instance: Gaussian integers and 2x2 matrices over them. *)
@@ -528,3 +711,16 @@ Definition cpoly (cs : list GI) (t : Z) : GI :=
   fold_right (fun c acc => gadd c (gmul (gofZ t) acc)) g0 cs.
 Definition mpoly (ms : list M2) (t : Z) : M2 :=
   fold_right (fun m acc => add2 m (scale2 (gofZ t) acc)) z2 ms.
+
+(* ---------------------------------------------------------------------- *)
+(* Integer times ("ticks") for execution.  rtol = 1e-15 exactly; the absolute
+   tolerance of the guard before commit f4e3df4 is an/ad ticks (1e-15 s divided
+   by the tick length). *)
+Definition ten15 : Z := 1000000000000000%Z.
+Definition zclose_new (a b : Z) : bool := (Z.abs (a - b) * ten15 <=? Z.abs b)%Z.
+Definition zclose_old (an ad : Z) (a b : Z) : bool :=
+  (Z.abs (a - b) * ten15 * ad <=? an * ten15 + Z.abs b * ad)%Z.
+Definition zdiff (a b : Z) : GI := ((a - b)%Z, 0%Z).
+Definition zsep (a : Z) : Prop := (Z.abs a < ten15)%Z.
+(* args dictionaries with the single key "w": None is {}, Some k is {"w": k} *)
+Definition zmerge (a n : option Z) : option Z := match n with Some _ => n | None => a end.
